@@ -14,7 +14,9 @@ import mirutil
 LEVEL = 'proof'
 CRATE = 'dasp_slice'
 SL = 'core::slice::<impl [T]>::'
-FRP = ('core::slice::raw::from_raw_parts', 'core::slice::raw::from_raw_parts_mut')
+FRP = ('core::slice::raw::from_raw_parts', 'core::slice::raw::from_raw_parts_mut', 'core::ptr::slice_from_raw_parts', 'core::ptr::slice_from_raw_parts_mut')
+MD = 'core::mem::manually_drop::ManuallyDrop::<T>::'
+MD_NEW = MD + 'new'      # moving the box into a ManuallyDrop that is never unwrapped again forgets it, like mem::forget
 
 
 def rp(e):
@@ -71,8 +73,11 @@ def base_pointer(p, t, depth=0):
     if t[0] == 'ret':
         e = p['events'][t[1]]
         r = rp(e)
-        if r in (SL + 'as_ptr', SL + 'as_mut_ptr') or r in FRP or r == 'alloc::boxed::Box::<T>::into_raw':
+        if r in (SL + 'as_ptr', SL + 'as_mut_ptr') or r in FRP or r in ('alloc::boxed::Box::<T>::into_raw', MD_NEW):
             return base_pointer(p, e['args'][0], depth + 1)
+        if e.get('name') in ('deref', 'deref_mut') and e.get('trait') in ('core::ops::deref::Deref', 'core::ops::deref::DerefMut') \
+                and str((e.get('callee') or {}).get('self_ty', '')).startswith(('core::mem::manually_drop::ManuallyDrop<', 'alloc::boxed::Box<')):
+            return base_pointer(p, e['args'][0], depth + 1)      # a view into what the wrapper owns
         return t
     if t[0] == 'field':
         return base_pointer(p, t[1], depth + 1)
@@ -168,8 +173,11 @@ def check_conversion(run, cx, cfg, trait, meth, N, fn, body):
         for p in ps:
             lens = len_of_arg(p)
             d = divisibility(p, lens, N)
-            forgets = [(k, e) for k, e in call_events(p) if rp(e) in ('core::mem::forget', 'alloc::boxed::Box::<T>::into_raw') and e['args'][0] == ('param', 1)]
+            forgets = [(k, e) for k, e in call_events(p) if rp(e) in ('core::mem::forget', 'alloc::boxed::Box::<T>::into_raw', MD_NEW) and e['args'][0] == ('param', 1)]
             fromraw = [(k, e) for k, e in call_events(p) if rp(e) == 'alloc::boxed::Box::<T>::from_raw' and base_pointer(p, e['args'][0]) == ('param', 1)]
+            if [1 for k, e in call_events(p) if rp(e).startswith(MD) and rp(e) != MD_NEW]:
+                bad = 'unwraps / drops a ManuallyDrop again: ownership of the allocation is not tracked by this rule'
+                break
             # R8: forget(box) must be followed by Box::from_raw on a pointer derived from that box, on every returning path
             if forgets and not [1 for k, e in fromraw if k > forgets[0][0]]:
                 bad = 'forgets the box and returns without re-owning it (the allocation leaks) on the path [%s]' % describe_path(p)
@@ -202,10 +210,11 @@ def check_conversion(run, cx, cfg, trait, meth, N, fn, body):
         else:
             p = ps[0]
             lens = len_of_arg(p)
-            forgets = [(k, e) for k, e in call_events(p) if rp(e) in ('core::mem::forget', 'alloc::boxed::Box::<T>::into_raw') and e['args'][0] == ('param', 1)]
+            forgets = [(k, e) for k, e in call_events(p) if rp(e) in ('core::mem::forget', 'alloc::boxed::Box::<T>::into_raw', MD_NEW) and e['args'][0] == ('param', 1)]
             fromraw = [(k, e) for k, e in call_events(p) if rp(e) == 'alloc::boxed::Box::<T>::from_raw' and base_pointer(p, e['args'][0]) == ('param', 1)]
             frp = [(k, e) for k, e in call_events(p) if rp(e) in FRP]
-            ok = len(forgets) == 1 and len(fromraw) == 1 and fromraw[0][0] > forgets[0][0] and p['ret'] == ('ret', fromraw[0][0]) and frp
+            ok = len(forgets) == 1 and len(fromraw) == 1 and fromraw[0][0] > forgets[0][0] and p['ret'] == ('ret', fromraw[0][0]) and frp \
+                and not [1 for k, e in call_events(p) if rp(e).startswith(MD) and rp(e) != MD_NEW]
             if ok:
                 ln = frp[-1][1]['args'][1]
                 ok = ln[0] == 'op' and ln[1] == 'Mul' and {ln[2], ln[3]} & set(lens) and ('int', N, 'usize') in (ln[2], ln[3]) and unre(fromraw[0][1]['args'][0]) == ('ret', frp[-1][0])
